@@ -9,7 +9,7 @@
    Not proved (evaluated on the implementation on every run): Quaternion(Matrix3)'s four branches (isometry
    constructors of the 3D groups), SE_2(3) / SGal(3) accessor round trips, precision of cast<float>. *)
 From Coq Require Import Reals ZArith List Lra.
-From Manif Require Import Scalar Mat Group RInst Generic LieSpec SO2 SE2 SO3 SE3 Rn Ctor Hist SE2Proofs SO3Proofs CtorProofs.
+From Manif Require Import Scalar Mat Group RInst Generic LieSpec SO2 SE2 SO3 SE3 Rn Ctor Hist SE2Proofs SO3Proofs CtorProofs QuatOfMatrix.
 Import ListNotations.
 Local Open Scope R_scope.
 
@@ -75,6 +75,14 @@ Theorem C13_SO2_cast X : so2_valid X -> so2_cast RS X = X.
 Proof. exact (so2_cast_valid X). Qed.
 Theorem C13_SE2_cast X : se2_valid X -> se2_cast RS X = X.
 Proof. exact (se2_cast_valid X). Qed.
+
+(* construction from a rotation matrix (Eigen's Quaternion(Matrix3), all four branches): given the rotation matrix of a
+   unit quaternion q the constructor returns q or -q, whose rotation() is the supplied matrix *)
+Theorem C13_so3_from_matrix x y z w : n4 x y z w = 1 ->
+  exists q, @so3_ctor RS 3 [concat (@quat_matrix RS [x; y; z; w])] = Some q /\
+            so3_rotation RS q = @quat_matrix RS [x; y; z; w] /\ (q = [x; y; z; w] \/ q = [- x; - y; - z; - w]).
+Proof. exact (so3_from_matrix x y z w). Qed.
+Print Assumptions C13_so3_from_matrix.
 
 Example C13_nonvacuous : n4 (2/7) (3/7) (6/7) 0 = 1 /\ (3/5) * (3/5) + (4/5) * (4/5) = 1 /\ 1/8 <= Rabs (sqrt (n4 1 1 0 0) - 1).
 Proof.
